@@ -257,6 +257,11 @@ func Run(c *vh.Ctx) {
 		e.replay(m)
 		return
 	}
+	if m != nil {
+		if bad, err := m.Ask("bad"); err == nil && bad != "-" && bad != "bad-op" {
+			c.Note("classification obligations: not in order for the tree under test: %s", bad)
+		}
+	}
 
 	// 1. OrderedMap correspondence (exhaustive + seeded)
 	omStream(c, m)
